@@ -35,6 +35,7 @@ type Config struct {
 	MaxSteps   int           // scheduling decisions per run
 	MaxSimTime time.Duration // simulated time cap
 	TraceCap   int           // number of events kept for the replay file
+	DeepPct    int           // percentage of runs in which kernel-level (YieldDeep) scheduling points are active
 }
 
 type Event struct {
@@ -111,6 +112,8 @@ type Sim struct {
 	current  *Task
 	last     *Task
 	aborting bool
+	Deep     bool // kernel-level scheduling points active in this run
+	deepLeft int
 	start    time.Time
 
 	Crash    *Crash
@@ -229,6 +232,10 @@ func Run(t *testing.T, cfg Config, sched *Tape, body func()) (s *Sim) {
 	s.policy = sched.Choose(numPolicies)
 	s.preempt = []int{2, 10, 30, 100}[sched.Choose(4)]
 	s.pctD = 1 + sched.Choose(3)
+	if cfg.DeepPct > 0 {
+		s.Deep = sched.Choose(100) >= 100-cfg.DeepPct
+		s.deepLeft = 1500
+	}
 	defer func() {
 		cur.Store(nil)
 		if r := recover(); r != nil {
@@ -390,6 +397,24 @@ func Yield(site string) {
 		return
 	}
 	s.park(t, site)
+}
+
+// YieldDeep is a scheduling point inside a model kernel; it is active only in "deep" runs
+// (drawn per run from the schedule tape), because kernels execute many statements.
+//
+//go:norace
+func YieldDeep(site string) {
+	s := cur.Load()
+	if s == nil || !s.Deep {
+		return
+	}
+	// a bounded number of kernel-level scheduling points per run (only one task runs at a time,
+	// so the counter needs no lock and is deterministic); afterwards kernels run atomically
+	if s.deepLeft <= 0 {
+		return
+	}
+	s.deepLeft--
+	Yield(site)
 }
 
 // Go starts f as a new task (a plain goroutine outside a simulation).
